@@ -67,7 +67,8 @@ if use_repo:
     assert run(["git", "status", "--porcelain"], "/repo")[1].strip() == "", "/repo dirty"
 else:
     assert run(["git", "rev-parse", "HEAD"], W)[1].strip() == run(["git", "rev-parse", "HEAD"], "/repo")[1].strip(), "worktree not at /repo HEAD"
-man = json.load(open("/verif/MANIFEST.json"))
+CHK = os.environ.get("VERIF_CHECK_DIR", "/verif")   # a frozen snapshot of /verif's HEAD when evaluating in the background
+man = json.load(open(CHK + "/MANIFEST.json"))
 claimed = [c["property_id"] for c in man["checks"]]
 rc, o = run(["git", "apply", patch], target)
 assert rc == 0, o
@@ -76,7 +77,7 @@ try:
     cenv = dict(os.environ, VERIF_FACT_CACHE="1", VERIF_REPO=target, VERIF_EVIDENCE_DIR="%s/evidence-%s-%s" % (ROOT, pid, n))
     for c in claimed:
         tier = "thorough" if c == pid else "quick"
-        rc, o = run(["./check", c, "--tier", tier], "/verif", env=cenv)
+        rc, o = run(["./check", c, "--tier", tier], CHK, env=cenv)
         viol = [l for l in o.splitlines() if ": SA-" in l or "FLOOR" in l or "ANCHOR" in l or "SHAPE" in l]
         caught[c] = {"exit": rc, "tier": tier, "reports": [v[:300] for v in viol if "VIOLATION" not in v][:6]}
 finally:
